@@ -99,6 +99,25 @@ func (e *Enc) external(cur *cursor, v ssa.Value, callee *ssa.Function, args []Va
 		set(fmt.Sprintf("(ite (= %s ANil) %s Nil)", errT, re), errT)
 	case "(*regexp.Regexp).MatchString":
 		set(fmt.Sprintf("(re_match (re_pat %s) %s)", at(0), at(1)))
+	case "sort.Strings":
+		// assumed contract: the slice header is unchanged, its elements are permuted (perm is a
+		// bijection on [0,len)) and end up in non-decreasing bytewise order
+		sl := at(0)
+		arr := e.heapGet(st, "M$string", "Str")
+		na := e.fresh("M$string", "(Array Addr Str)")
+		e.nfresh++
+		perm, inv := fmt.Sprintf("perm!%d", e.nfresh), fmt.Sprintf("perminv!%d", e.nfresh)
+		e.declare(fmt.Sprintf("(declare-fun %s (Int) Int)", perm))
+		e.declare(fmt.Sprintf("(declare-fun %s (Int) Int)", inv))
+		el := func(arrT, k string) string { return fmt.Sprintf("(select %s %s)", arrT, selemT(sl, k)) }
+		rng := func(k string) string { return fmt.Sprintf("(and (<= 0 %s) (< %s (sl_len %s)))", k, k, sl) }
+		e.assume(cur.guard, fmt.Sprintf("(forall ((j Int)) (! (=> %s (and %s (= %s %s) (= (%s (%s j)) j))) :pattern (%s)))", rng("j"), rng("("+perm+" j)"), el(na, "j"), el(arr, "("+perm+" j)"), inv, perm, el(na, "j")))
+		e.assume(cur.guard, fmt.Sprintf("(forall ((i Int)) (! (=> %s (and %s (= (%s (%s i)) i))) :pattern ((%s i))))", rng("i"), rng("("+inv+" i)"), perm, inv, inv))
+		e.assume(cur.guard, fmt.Sprintf("(forall ((i Int) (j Int)) (! (=> (and (<= 0 i) (< i j) (< j (sl_len %s))) (<= (scmp %s %s) 0)) :pattern (%s %s)))", sl, el(na, "i"), el(na, "j"), el(na, "i"), el(na, "j")))
+		e.assume(cur.guard, fmt.Sprintf("(forall ((a Addr)) (! (=> (not (and ((_ is Elem) a) (= (elem_a a) (sl_base %s)) (<= (sl_off %s) (elem_i a)) (< (elem_i a) (+ (sl_off %s) (sl_len %s))))) (= (select %s a) (select %s a))) :pattern ((select %s a))))", sl, sl, sl, sl, na, arr, na))
+		st.heap["M$string"] = na
+		e.assumedCallees["ext:"+full] = true
+		e.setResults(cur, v, sig, nil)
 	case "math.Floor":
 		set(fmt.Sprintf("(fp.roundToIntegral RTN %s)", at(0)))
 	case "math.Ceil":
